@@ -903,3 +903,63 @@ func TestSVG(t *testing.T) {
 		checkSVG(t, rec, "SaveSVG", path, model)
 	})
 }
+
+// TestObjectHistory: the SVG / DXF drawing objects used directly, with a history: lines are
+// added, the drawing is saved, more lines are added and it is saved again (to the same file).
+// Every saved file must hold exactly the geometry supplied so far.
+func TestObjectHistory(t *testing.T) {
+	rec := ev.Get()
+	rapid.Check(t, func(t *rapid.T) {
+		model, _ := drawSegments(t, false)
+		nsaves := rapid.IntRange(2, 3).Draw(t, "saves")
+		// cut points of the history
+		cuts := make([]int, nsaves)
+		for i := range cuts {
+			cuts[i] = rapid.IntRange(0, len(model)).Draw(t, fmt.Sprintf("cut%d", i))
+		}
+		cuts[nsaves-1] = len(model)
+		for i := 1; i < nsaves; i++ {
+			if cuts[i] < cuts[i-1] {
+				cuts[i] = cuts[i-1]
+			}
+		}
+		kind := rapid.SampledFrom([]string{"svg", "dxf"}).Draw(t, "format")
+		path := tmpPath(kind)
+		prepare(t, path)
+		rec.Case(len(model) >= 1, ev.Key("history", kind, cuts, model), "history:"+kind, fmt.Sprintf("history:saves=%d", nsaves))
+		rec.Sample("history:"+kind, map[string]any{"format": kind, "segments": len(model), "saved_after": cuts})
+		lines := toLines(model)
+		if kind == "svg" {
+			d := render.NewSVG(path, "fill:none;stroke:black;stroke-width:0.1")
+			done := 0
+			for _, c := range cuts {
+				for ; done < c; done++ {
+					d.Line(lines[done][0], lines[done][1])
+				}
+				if err := d.Save(); err != nil {
+					rec.Violation(t, "SVG.Save:error", "Save returned %v after %d lines", err, done)
+					return
+				}
+				checkSVG(t, rec, "SVG.Save(history)", path, model[:done])
+			}
+			return
+		}
+		d := render.NewDXF(path)
+		done := 0
+		for _, c := range cuts {
+			if rapid.Bool().Draw(t, "one-by-one") {
+				for ; done < c; done++ {
+					d.Line(lines[done])
+				}
+			} else {
+				d.Lines(lines[done:c])
+				done = c
+			}
+			if err := d.Save(); err != nil {
+				rec.Violation(t, "DXF.Save:error", "Save returned %v after %d lines", err, done)
+				return
+			}
+			checkDXF(t, rec, "DXF.Save(history)", path, model[:done])
+		}
+	})
+}
